@@ -153,6 +153,7 @@ package shimagent
 //@ func filterOrphanCerts(s, certsInMemory, keysInAgent)
 //@   flag inline
 //@   loop 1:
+//@     invariant [tables-only-shrink] outer(forall(h#bytes, h in dom(s.certs), old(h in dom(s.certs)) && s.certs[h] == old(s.certs[h])))
 //@     invariant publicKeys != nil && fresh(publicKeys) && srvOK(outer(s)) && certsInMemory == outer(s).certs
 //@     invariant certsNonNil(outer(s))
 //@     invariant keysWF(keysInAgent)
@@ -164,7 +165,7 @@ package shimagent
 //@     invariant keysWF(keysInAgent)
 //@     invariant keysWF(outer(inAgentKeys))
 //@     invariant arr(outer(inAgentKeys)) == arr(keysInAgent) && off(outer(inAgentKeys)) == off(keysInAgent) && len(outer(inAgentKeys)) <= len(keysInAgent)
-//@     invariant forall(h#bytes, h in dom(certsInMemory), entry(h in dom(certsInMemory)) && certsInMemory[h] == entry(certsInMemory[h]))
+//@     invariant [tables-only-shrink] outer(forall(h#bytes, h in dom(s.certs), old(h in dom(s.certs)) && s.certs[h] == old(s.certs[h])))
 
 //@ func filterExpiredCerts(s, certsInMemory, keysInAgent)
 //@   flag inline
@@ -174,14 +175,14 @@ package shimagent
 //@     invariant keysWF(keysInAgent)
 //@     invariant keysWF(outer(inAgentKeys))
 //@     invariant arr(outer(inAgentKeys)) == arr(keysInAgent) && off(outer(inAgentKeys)) == off(keysInAgent) && len(outer(inAgentKeys)) <= len(keysInAgent)
-//@     invariant forall(h#bytes, h in dom(certsInMemory), entry(h in dom(certsInMemory)) && certsInMemory[h] == entry(certsInMemory[h]))
+//@     invariant [tables-only-shrink] outer(forall(h#bytes, h in dom(s.certs), old(h in dom(s.certs)) && s.certs[h] == old(s.certs[h])))
 //@   loop 2:
 //@     invariant srvOK(outer(s)) && certsInMemory == outer(s).certs
 //@     invariant certsNonNil(outer(s))
 //@     invariant keysWF(keysInAgent)
 //@     invariant keysWF(outer(inAgentKeys))
 //@     invariant arr(outer(inAgentKeys)) == arr(keysInAgent) && off(outer(inAgentKeys)) == off(keysInAgent) && len(outer(inAgentKeys)) <= len(keysInAgent)
-//@     invariant forall(h#bytes, h in dom(certsInMemory), entry(h in dom(certsInMemory)) && certsInMemory[h] == entry(certsInMemory[h]))
+//@     invariant [tables-only-shrink] outer(forall(h#bytes, h in dom(s.certs), old(h in dom(s.certs)) && s.certs[h] == old(s.certs[h])))
 
 //@ func (*Server).remove(s, key)
 //@   flag logged
